@@ -89,10 +89,10 @@ struct Access {
         P(args[3]);
     }
     // protected operations
-    static void delete_vertex_core(TopologyKernel &m, int a) { m.delete_vertex_core(VH(a)); }
-    static void delete_edge_core(TopologyKernel &m, int a) { m.delete_edge_core(EH(a)); }
-    static void delete_face_core(TopologyKernel &m, int a) { m.delete_face_core(FH(a)); }
-    static void delete_cell_core(TopologyKernel &m, int a) { m.delete_cell_core(CH(a)); }
+    static int delete_vertex_core(TopologyKernel &m, int a) { return m.delete_vertex_core(VH(a)).cur_handle().idx(); }
+    static int delete_edge_core(TopologyKernel &m, int a) { return m.delete_edge_core(EH(a)).cur_handle().idx(); }
+    static int delete_face_core(TopologyKernel &m, int a) { return m.delete_face_core(FH(a)).cur_handle().idx(); }
+    static int delete_cell_core(TopologyKernel &m, int a) { return m.delete_cell_core(CH(a)).cur_handle().idx(); }
     static void reorder(TopologyKernel &m, int a) { m.reorder_incident_halffaces(EH(a)); }
 };
 }
@@ -144,10 +144,10 @@ int main(int argc, char **argv) {
         else if (op == "delete_edge") ret = m.delete_edge(EH(a)).cur_handle().idx();
         else if (op == "delete_face") ret = m.delete_face(FH(a)).cur_handle().idx();
         else if (op == "delete_cell") ret = m.delete_cell(CH(a)).cur_handle().idx();
-        else if (op == "delete_vertex_core") ovm_verif::Access::delete_vertex_core(m, a);
-        else if (op == "delete_edge_core") ovm_verif::Access::delete_edge_core(m, a);
-        else if (op == "delete_face_core") ovm_verif::Access::delete_face_core(m, a);
-        else if (op == "delete_cell_core") ovm_verif::Access::delete_cell_core(m, a);
+        else if (op == "delete_vertex_core") ret = ovm_verif::Access::delete_vertex_core(m, a);
+        else if (op == "delete_edge_core") ret = ovm_verif::Access::delete_edge_core(m, a);
+        else if (op == "delete_face_core") ret = ovm_verif::Access::delete_face_core(m, a);
+        else if (op == "delete_cell_core") ret = ovm_verif::Access::delete_cell_core(m, a);
         else if (op == "collect_garbage") m.collect_garbage();
         else if (op == "enable_deferred_deletion") m.enable_deferred_deletion(a != 0);
         else if (op == "add_vertex") ret = m.add_vertex().idx();
